@@ -1389,7 +1389,7 @@ def _boundary_polyline(ctx, info):
     else:
         # edges written directly with the new indices: a wrap-around modulo the cycle length must not include the running offset
         carried = {au.increment(q)[0] for q in au.stmts(outer.body) if au.increment(q) is not None}
-        bad = None
+        bad = bad_global = None
         val = S.canon(ea.args[0], ea, keep=tuple(carried))
         for n in ast.walk(val):
             if isinstance(n, ast.BinOp) and isinstance(n.op, ast.Mod):
@@ -1398,7 +1398,13 @@ def _boundary_polyline(ctx, info):
                     (isinstance(r.args[0], ast.Subscript) and isinstance(r.args[0].value, ast.Call) and au.call_tail(r.args[0].value) == "extract_border_cycle")
                 if is_len and any(isinstance(z, ast.Name) and z.id in carried and z.id != (vidx or "") for z in ast.walk(n.left)):
                     bad = n
-        if bad is not None:
+                if isinstance(r, ast.Name) and r.id in carried and r.id == off:
+                    bad_global = n
+        if bad_global is not None:
+            ctx.fail("C15-B1", esite, f"{name}: a polyline edge index wraps around modulo the running vertex offset, not modulo the length of the cycle",
+                     f"`{au.src(bad_global)}`: the running offset counts the vertices of all cycles collected so far, so for every cycle but the first the closing "
+                     "edge links the last vertex of the cycle to polyline vertex 0 instead of the first vertex of its own cycle")
+        elif bad is not None:
             ctx.fail("C15-B1", esite, f"{name}: a polyline edge index wraps around modulo the cycle length with the running offset inside the modulo",
                      f"`{au.src(bad)}`: for every cycle but the first the closing edge (and all others) point to vertices of earlier cycles; "
                      "the wrap-around applies to the position in the cycle, the offset is added afterwards")
